@@ -29,7 +29,10 @@ func propC01(c *Ctx) propInfo {
 	c.visitMarkers()
 	if f := c.mustFn("E1.P6-forward-refs", "boc", "DeserializeBoc"); f != nil {
 		env := &e1env{cfg: e1cfg{maxDepth: 0, exc: excC07}, ci: &callIndex{}, reach: map[*ssa.Function]bool{}}
-		c.forwardLinks(f, env)
+		// the linking loop may sit in an unexported helper of DeserializeBoc
+		for _, g := range c.helperClosure(f, 2, func(h *ssa.Function) bool { return plainHelper(h) == nil }) {
+			c.forwardLinks(g, env)
+		}
 	}
 	c.floor("E8.crc", 3)
 	c.floor("E11.magic", 2)
@@ -205,7 +208,17 @@ func (c *Ctx) bocDedup() {
 		c.bad(R, "hash-keyed map present", f.Pos(), "importCell no longer looks cells up in / records them into a map")
 		return
 	}
-	c.check(derivesFrom(lookup.Index, callResult(bocPath+".Hasher.HashString", bocPath+".Cell.HashString", bocPath+".Hasher.Hash"), false) && update.Key == lookup.Index, R, "cells are identified by their hash", lookup.Pos(), "lookup and insertion use the same key, derived from the cell's hash", "importCell no longer keys its de-duplication map by the cell hash (or inserts under a different key than it looks up)")
+	// EVERY value the key can be is a hash (a helper that returns the hash on one path and raw data on another does not qualify)
+	keyIsHash := true
+	for _, src := range valueSources(lookup.Index, 3) {
+		if cst, ok := src.(*ssa.Const); ok && cst.Value != nil && isErrorPathZero(src) {
+			continue
+		}
+		if !derivesFrom(src, callResult(bocPath+".Hasher.HashString", bocPath+".Cell.HashString", bocPath+".Hasher.Hash"), false) {
+			keyIsHash = false
+		}
+	}
+	c.check(keyIsHash && update.Key == lookup.Index, R, "cells are identified by their hash", lookup.Pos(), "lookup and insertion use the same key, derived from the cell's hash", "importCell no longer keys its de-duplication map by the cell hash (or inserts under a different key than it looks up)")
 	// the call that appends (state.add) is reachable only on the miss edge
 	var hit *ssa.If
 	for _, b := range f.Blocks {
@@ -664,33 +677,38 @@ func (c *Ctx) bocDepthLimitsAgree() {
 	// parser: depths[i] > maxDepth rejects (max accepted depth = maxDepth); serialiser importCell: depth > maxDepth rejects;
 	// hasher: child depth >= maxDepth rejects (node depth = child+1 <= maxDepth).
 	type lim struct {
-		op  string
-		k   int64
-		inc bool // the compared value has already been incremented for this node
+		lo  int64 // rejected from this value on
+		inc bool  // the compared value has already been incremented for this node
 	}
 	find := func(fn, sentinel string) *lim {
 		f := c.fn("boc", fn)
 		if f == nil {
 			return nil
 		}
-		for _, b := range f.Blocks {
-			if ifi := lastIf(b); ifi != nil {
-				if bo, ok := ifi.Cond.(*ssa.BinOp); ok {
-					if k, ok := constInt(bo.Y); ok && k >= 1000 {
-						for _, s := range b.Succs {
-							if returnsSentinel(s, sentinel) {
-								inc := derivesFrom(bo.X, func(v ssa.Value) bool {
-									a, ok := v.(*ssa.BinOp)
-									if !ok || a.Op != token.ADD {
-										return false
-									}
-									one, ok := constInt(a.Y)
-									return ok && one == 1
-								}, false)
-								return &lim{bo.Op.String(), k, inc}
-							}
-						}
+		// the test may sit in the function or in an unexported helper it calls
+		for _, g := range c.helperClosure(f, 2, func(h *ssa.Function) bool { return plainHelper(h) == nil }) {
+			for _, b := range g.Blocks {
+				ifi := lastIf(b)
+				if ifi == nil {
+					continue
+				}
+				for i, s := range b.Succs {
+					if !returnsSentinel(s, sentinel) {
+						continue
 					}
+					x, lo, ok := rejectLowerBound(ifi, i)
+					if !ok || lo < 1000 {
+						continue
+					}
+					inc := derivesFrom(x, func(v ssa.Value) bool {
+						a, ok := v.(*ssa.BinOp)
+						if !ok || a.Op != token.ADD {
+							return false
+						}
+						one, ok := constInt(a.Y)
+						return ok && one == 1
+					}, false)
+					return &lim{lo, inc}
 				}
 			}
 		}
@@ -701,10 +719,7 @@ func (c *Ctx) bocDepthLimitsAgree() {
 		if l == nil {
 			return -1
 		}
-		m := l.k
-		if l.op == ">=" {
-			m = l.k - 1
-		}
+		m := l.lo - 1
 		if childBased {
 			m++
 		}
@@ -854,4 +869,19 @@ func freshBytes(v ssa.Value) (fresh, cloned bool) {
 		}
 	}
 	return false, false
+}
+
+// isErrorPathZero: the zero value ("" / 0) a function returns next to a non-nil error.
+func isErrorPathZero(v ssa.Value) bool {
+	cst, ok := v.(*ssa.Const)
+	if !ok || cst.Value == nil {
+		return false
+	}
+	if s, ok := constString(cst); ok {
+		return s == ""
+	}
+	if k, ok := constInt(cst); ok {
+		return k == 0
+	}
+	return false
 }
